@@ -254,6 +254,7 @@ def _run_scope_chunk(args):
     evals = nontriv = checks = 0
     outcomes = collections.Counter()
     viols = []
+    seen_sigs = set()
     nviol = 0
     for i in range(start, stop):
         case = u.cases[i]
@@ -272,7 +273,8 @@ def _run_scope_chunk(args):
         outcomes.update(set(R.outcomes) or {'ok' if not R.violations else 'violation'})
         for v in R.violations:
             nviol += 1
-            if len(viols) < 40:
+            if v['sig'] not in seen_sigs and len(viols) < 500:
+                seen_sigs.add(v['sig'])
                 viols.append({'unit': u.name, 'index': i, 'case': case, **v})
     return ui, start, stop, evals, checks, nontriv, dict(outcomes), viols, nviol
 
@@ -335,6 +337,20 @@ class Stats:
         self.samples = []
         self.units = []
         self.capped = None
+        self._sigs = {}
+
+    def add_viols(self, viols):
+        """keep, per (unit, signature), the violation with the smallest case index (scopes are ordered simplest-first)"""
+        for v in viols:
+            key = (v.get('unit'), v['sig'])
+            i = self._sigs.get(key)
+            if i is None:
+                if len(self.viols) < 5000:
+                    self._sigs[key] = len(self.viols)
+                    self.viols.append(v)
+            elif v.get('index', 1 << 60) < self.viols[i].get('index', 1 << 60):
+                self.viols[i] = v
+
 
 
 def explore(units, seed, workers, cap_s, t0):
@@ -375,7 +391,7 @@ def explore(units, seed, workers, cap_s, t0):
                     un += nontriv
                     uc += checks
                     uo.update(outcomes)
-                    S.viols.extend(viols)
+                    S.add_viols(viols)
                     S.nviol += nviol
                     done += e - s
                     if time.time() - t0 > cap_s:
@@ -408,7 +424,7 @@ def explore(units, seed, workers, cap_s, t0):
                     st = u.fresh(init, seed)
                     u.check(st, init, [], R)
                     for v in R.violations:
-                        S.viols.append({'unit': u.name, 'case': {'init': init, 'history': []}, **v})
+                        S.add_viols([{'unit': u.name, 'case': {'init': init, 'history': []}, **v}])
                         S.nviol += 1
                     seen = {u.canon(st)}
                     frontier = [[]]
@@ -428,8 +444,7 @@ def explore(units, seed, workers, cap_s, t0):
                                 uo.update(outcomes or ['ok' if not viols else 'violation'])
                                 if viols:
                                     S.nviol += len(viols)
-                                    if len(S.viols) < 400:
-                                        S.viols.extend(viols)
+                                    S.add_viols(viols)
                                 if key not in seen:
                                     seen.add(key)
                                     nxt.append(h)
